@@ -8,8 +8,8 @@ REAL_COMMON = [
 CHECKS = {
     "C08": {
         "machine": "lib",
-        "runs": {"quick": 60_000, "thorough": 4_000_000},
-        "chunk": {"quick": 1500, "thorough": 10_000},
+        "runs": {"quick": 45_000, "thorough": 4_000_000},
+        "chunk": {"quick": 1000, "thorough": 2_000},
         "budget_s": {"quick": 75, "thorough": 900},
         "run_timeout": 20,
         "manifest": {
@@ -46,7 +46,7 @@ CHECKS = {
 CHECKS["C19"] = {
     "machine": "entry",
     "runs": {"quick": 150_000, "thorough": 6_000_000},
-    "chunk": {"quick": 2500, "thorough": 20_000},
+    "chunk": {"quick": 2500, "thorough": 5_000},
     "budget_s": {"quick": 75, "thorough": 900},
     "run_timeout": 20,
     "manifest": {
@@ -221,7 +221,7 @@ CHECKS["C07"] = {
 
 CHECKS["C20"] = {
     "machine": "io",
-    "runs": {"quick": 100_000, "thorough": 1_500_000},
+    "runs": {"quick": 60_000, "thorough": 1_500_000},
     "chunk": {"quick": 500, "thorough": 2_000},
     "budget_s": {"quick": 80, "thorough": 900},
     "run_timeout": 60,
@@ -246,7 +246,8 @@ CHECKS["C20"] = {
         "state_measure": "distinct (call, argument pattern, stack classes | encoding, fault kinds fired, outcome class) tuples",
         "expected_probes": ["both_args_value_error", "multibyte_split_across_raw_reads", "eintr_inside_write", "short_write_retried", "enospc_write_propagated",
                             "eio_write_propagated", "eio_read_propagated", "decode_error_propagated", "locale_unencodable_propagated", "utf16_bom",
-                            "preexisting_longer_file", "fileobj_recording_exact", "cr_or_crlf_file", "generator_result_rejected"]
+                            "preexisting_longer_file", "fileobj_recording_exact", "cr_or_crlf_file", "generator_result_rejected",
+                            "caller_edited_its_copy_of_default_stacks", "failed_write_left_target_untouched"]
                            + ["returns_" + k for k in ("none", "empty_list", "empty_tuple", "same", "new", "list2", "tuple3", "gen", "int", "obj", "str", "list_bad")],
         "components": {"real": REAL_COMMON + ["parse_string / parse_file / write_string / write_file", "default stacks", "BlockMiddleware.transform", "shipped middlewares mixed into stacks"],
                        "stub": ["raw device + directory: SimRaw / SimDisk", "builtins.open as seen by bibtexparser.entrypoint", "locale / platform newline (simulated)",
@@ -262,7 +263,7 @@ CHECKS["C18"] = {
     "budget_s": {"quick": 80, "thorough": 900},
     "run_timeout": 60,
     "manifest": {
-        "text": "Partial. The third-party converter is replaced through the encoder= / decoder= constructor seam by a wrapper that fails chosen calls with one of 11 "
+        "text": "Partial. The third-party converter is replaced through the encoder= / decoder= constructor seam by a wrapper that fails chosen calls with one of 21 "
                 "exception kinds (real pylatexenc or a marker stub underneath); every text value is made unique so a failed call identifies its site "
                 "(entry field, name part, @string). Decided per run: no exception escapes transform; an entry whose conversion failed becomes a middleware-error block holding "
                 "the entry with the unconverted value; un-faulted text values are converted exactly once; everything but text values (keys, types, raw, start lines, metadata, "
@@ -277,7 +278,7 @@ CHECKS["C18"] = {
                 "a middleware (encode|decode, marker|real|own converter, in-place or copy) and a fault plan (0-3 failing call indices x exception kind); "
                 "distinct = distinct event-log shape incl. result digest; non-trivial = the transform ran.",
         "state_measure": "distinct (direction, converter, exception kind, fault sites, in-place flag, options) tuples",
-        "expected_probes": ["fault_in_field", "fault_in_namepart", "fault_in_string", "planned_fault_beyond_last_call"],
+        "expected_probes": ["fault_in_field", "fault_in_namepart", "fault_in_string", "planned_fault_beyond_last_call", "instance_reused_for_another_library"],
         "components": {"real": REAL_COMMON + ["LatexEncodingMiddleware / LatexDecodingMiddleware", "BlockMiddleware.transform", "pylatexenc (inner=real, inner=own)"],
                        "stub": ["FaultyConverter (fails planned calls)", "Marker converter (wraps once)"]},
         "assumptions": ["a converter that returns a non-str is out of scope"],
